@@ -1167,14 +1167,14 @@ pub fn run_real(case: &Case, prog: &Program, kernel_override: Option<&Program>) 
     let mut host = ProbeHost { inner: case.default_host(), probes: vec![], final_mem: BTreeMap::new(), final_seen: false, interest };
     let outcome = if let Some(kp) = kernel_override {
         // run against the kernel of ANOTHER program (kernel-membership check at run time)
-        let mut process = Process::new(kp.kernel().clone(), case.stack_inputs(), &mut host, ExecutionOptions::default());
+        let mut process = Process::new(kp.kernel().clone(), case.stack_inputs(), &mut host, crate::case::bounded_opts());
         match catch(|| process.execute(prog)) {
             Ok(Ok(_)) => RealOutcome::Err("accepted".into(), "execution succeeded".into()),
             Ok(Err(e)) => RealOutcome::Err(err_kind(&e), format!("{e:?}")),
             Err(p) => RealOutcome::Panic(p.site(), format!("{} at {}", p.message, p.location)),
         }
     } else {
-        match catch(|| processor::execute(prog, case.stack_inputs(), &mut host, ExecutionOptions::default())) {
+        match catch(|| processor::execute(prog, case.stack_inputs(), &mut host, crate::case::bounded_opts())) {
             Ok(Ok(t)) => RealOutcome::Ok(Box::new(t)),
             Ok(Err(e)) => RealOutcome::Err(err_kind(&e), format!("{e:?}")),
             Err(p) => RealOutcome::Panic(p.site(), format!("{} at {}", p.message, p.location)),
